@@ -4,6 +4,7 @@ CONSTANTS
   Lens <- LensQ
   Depth = 2
   MaxN = 4
+  BigTN <- BigQ
   Modes <- ModesAll
   Deviations <- NoDev
   Emit = FALSE
